@@ -61,7 +61,7 @@ theorem readLoop_spec (dev : Dev) (bs off0 want : Nat) (hbs : 0 < bs) :
     intro first off got ios _ hbase _ _ hgw henough
     simp only [blockCount, List.map_nil, List.sum_nil, Nat.zero_mul, Nat.add_zero] at henough
     have : want - got.length = 0 := by omega
-    exact ⟨⟨got, ios, off⟩, by simp [readLoop], by simp [this, fileBytes], by simp [this]⟩
+    exact ⟨⟨got, ios, off⟩, by simp [readLoop, this, zeros], by simp [this, fileBytes], by simp [this]⟩
   | cons e es ih =>
     intro first off got ios hc hbase hoff0 hdisj hgw henough
     obtain ⟨hfb, hcnt, hrest⟩ := hc
@@ -108,7 +108,8 @@ theorem readLoop_spec (dev : Dev) (bs off0 want : Nat) (hbs : 0 < bs) :
       have hsp' : ¬ (off - e.fileBlock * bs > e.count * bs) := by
         rw [hfb]; rcases hsp with h | h <;> omega
       have hnw : ¬ (off < e.fileBlock * bs) := by rw [hfb]; omega
-      simp only [readLoop, skips, hskip, decide_false, if_false, Bool.false_eq_true, hnw, hsp']
+      simp only [readLoop, skips, hskip, decide_false, if_false, Bool.false_eq_true, hnw, false_and,
+        zeros, List.replicate_zero, List.append_nil, Nat.add_zero, hsp']
       -- abbreviations
       generalize hsP : off - e.fileBlock * bs = sp at *
       have hspP : sp = off - first * bs := by rw [← hsP, hfb]
